@@ -83,6 +83,13 @@ def c04(tier):
                         constraints=[Con(E("c1", 1, ("x", "u")), "le", 1.0, scale=4.0),
                                      Con(E("c2", 2, ("x",)), "box", 2.0, lhs=-1.0, scale=2.0),
                                      Con(E("c3", 1, ("x", "u")), "eq", 0.5, scale=8.0)])))
+    # algebraic variables inside path constraints (DAE, collocation): value at a node / integrator point is the value of
+    # the algebraic polynomial of the step starting there
+    for N, M in ((2, 1), (3, 2)):
+        out.append(("DC-N%d-M%d-dae-z-in-constraints" % (N, M),
+                    _mk(method="DC", N=N, M=M, degree=2, algebraics=[1], ode=E("f", None, ("x", "u", "z", "t")), alg=E("g", None, ("x", "z", "u")),
+                        constraints=[Con(E("cz", 1, ("x", "z", "u")), "le", 1.0), Con(E("czi", 1, ("x", "z")), "le", 2.0, grid="integrator"),
+                                     Con(E("czn", 1, ("z", ("off", "z", 1))), "le", 3.0), Con(E("czf", 1, (("at", "tf", "z"), ("at", "t0", "z"))), "le", 4.0)])))
     out.append(("DC-N2-M2-roots", _mk(method="DC", N=2, M=2, degree=2, ode=E("f", None, ("x", "u", "t")),
                                       constraints=[Con(E("cr", 1, ("x", "u", "t")), "le", 1.0, grid="integrator_roots")])))
     for meth in ("MS", "SS"):
@@ -142,6 +149,12 @@ def c11(tier):
                             objective=[("integral", E("L", 1, ("x", "u", "t", "pc", "pcp", "v")))])))
         out.append(("%s-Tfree-geometric" % meth, _mk(method=meth, N=3, M=1, degree=2, T=("free", 1.0), grid=dict(kind="geometric", growth=2.0),
                                                      ode=E("f", None, ("x", "u", "t")), constraints=cons(), objective=obj())))
+        # grids with their own time variables: the horizon variable must still BE the length of the partition
+        for gl, g in (("freegrid", dict(kind="free")), ("freegrid-loct0", dict(kind="free", localize_t0=True)),
+                      ("uniform-locboth", dict(kind="uniform", localize_T=True, localize_t0=True)), ("geometric-locT", dict(kind="geometric", growth=2.0, localize_T=True))):
+            for t0k in (("fixed", 0.5), ("free", 0.5)):
+                out.append(("%s-Tfree-t0%s-%s" % (meth, t0k[0], gl), _mk(method=meth, N=3, M=2, degree=2, T=("free", 1.5), t0=t0k, grid=dict(g),
+                                                                          ode=E("f", None, ("x", "u", "t")), constraints=cons(), objective=obj())))
     return out
 
 
@@ -271,6 +284,11 @@ def c10(tier):
             else:
                 out.append(("%s-N%d-M%d-arrays" % (meth, N, M), _mk(method=meth, N=N, M=M, degree=2, initial=arrays(N, True), **base)))
                 out.append(("%s-N%d-M%d-arraysN" % (meth, N, M), _mk(method=meth, N=N, M=M, degree=2, initial=arrays(N, False), **base)))
+        # guesses given after the first transcription produce the same starting point
+        out.append(("%s-N3-M2-after-all" % meth, _mk(method=meth, N=3, M=2, degree=2, T=("free", 1.5), t0=("free", 0.25), initial=consts() + texpr_controls(), initial_after="all", **base)))
+        out.append(("%s-N3-M2-after-T-guess" % meth, _mk(method=meth, N=3, M=2, degree=2, T=("free", 1.0), t0=("free", 0.0),
+                                                          initial=texpr_states() + texpr_controls() + [("t0", ("unknown", "g_t0", 1, 1)), ("T", ("unknown", "g_T", 1, 1))], initial_after=2, **base)))
+        out.append(("%s-N2-M1-after-arrays" % meth, _mk(method=meth, N=2, M=1, degree=2, initial=consts() + arrays(2, True), initial_after=4, **base)))
         out.append(("%s-scaled-const" % meth, _mk(method=meth, N=2, M=1, degree=2, scales={"x": "unknown", "u": "unknown", "v": "unknown", "vcontrol": "unknown"}, initial=consts(), **base)))
         out.append(("%s-Tguess-texpr" % meth, _mk(method=meth, N=3, M=1, degree=2, T=("free", 1.0), t0=("free", 0.0),
                                                   initial=[("T", ("unknown", "g_T", 1, 1)), ("t0", ("unknown", "g_t0", 1, 1))] + texpr_states(), **base)))
